@@ -50,11 +50,7 @@ impl TraitFnAnalyzer<'_> {
         analyzer: &mut GenericsAnalyzer,
     ) -> syn::Result<TraitFn> {
         let mut trait_fn = self.analyze(input_sig, analyzer)?;
-        trait_fn.attrs = fn_attrs
-            .iter()
-            .filter(|attr| attr.path().is_ident("cfg"))
-            .cloned()
-            .collect();
+        trait_fn.attrs = fn_attrs.iter().filter_map(mirrored_cfg_attr).collect();
         Ok(trait_fn)
     }
 
@@ -82,6 +78,27 @@ impl TraitFnAnalyzer<'_> {
             fn_generic_args,
         })
     }
+}
+
+/// The part of an attribute that decides whether the fn exists:
+/// `#[cfg(..)]` itself, or the `cfg(..)` entries of a `#[cfg_attr(predicate, ..)]` (under the same predicate)
+fn mirrored_cfg_attr(attr: &syn::Attribute) -> Option<syn::Attribute> {
+    if attr.path().is_ident("cfg") {
+        return Some(attr.clone());
+    }
+    if !attr.path().is_ident("cfg_attr") {
+        return None;
+    }
+    let mut metas = attr
+        .parse_args_with(syn::punctuated::Punctuated::<syn::Meta, syn::token::Comma>::parse_terminated)
+        .ok()?
+        .into_iter();
+    let predicate = metas.next()?;
+    let cfgs: Vec<syn::Meta> = metas.filter(|meta| meta.path().is_ident("cfg")).collect();
+    if cfgs.is_empty() {
+        return None;
+    }
+    Some(syn::parse_quote! { #[cfg_attr(#predicate, #(#cfgs),*)] })
 }
 
 /// A type or const parameter that no argument determines cannot be inferred in the delegating call:
